@@ -62,7 +62,8 @@ def run_demo(meta, src, wt):
     if names:
         pkg = "./internal/cmd" if "/internal/cmd/" in placed[0] else "./internal/server"
         tags = "-tags verif " if any("go:build verif" in open(q).read() for q in placed if q.endswith("_test.go")) else ""
-        cmd = "go test %s-count=1 -run '^(%s)$' %s" % (tags, "|".join(names), pkg)
+        race = "-race " if "-race" in cmd else ""
+        cmd = "go test %s%s-count=1 -run '^(%s)$' %s" % (race, tags, "|".join(names), pkg)
     elif not cmd:
         cmd = "go run ./zz_seed_demo"
     results = []
